@@ -1,4 +1,4 @@
-from .common import LEAN_TB
+from .common import LEAN_TB, WSFRAME_TB
 
 PROP = {
         "id": "C07",
@@ -20,6 +20,12 @@ PROP = {
             "Sonic.Spec.WsFrame.parse_encode",
             "Sonic.Spec.WsFrame.parse_append_frame",
             "Sonic.Spec.WsFrame.parse_append_tooBig",
+            # tie T: the frame header logic regenerated from frame.go / rfc6455.go / util/bytes.go (Props/WsFrameTie.lean)
+            "Sonic.Props.C07.C07_tie_header_accessors",
+            "Sonic.Props.C07.C07_tie_constants",
+            "Sonic.Props.C07.C07_tie_payload_length",
+            "Sonic.Props.C07.C07_tie_payload_length_spare_capacity",
+            "Sonic.Props.C07.C07_tie_payload_length_64",
         ],
         "runs": [{
             "component": "wsdecode",
@@ -34,7 +40,9 @@ PROP = {
                 "after each segment; enum = 12 canonical strings at every split into 2 and 3 segments and every composition for strings up to "
                 "the given length. A script is non-trivial when the model reached a non-default branch (lazy consume, each needmore stage, "
                 "too big, top-bit length, 16/64-bit form, mask, Reserve growth, partial read, ...); distinct = by SHA-1 of the implementation trace",
-        "trusted_base": LEAN_TB + [
+        "trusted_base": LEAN_TB + WSFRAME_TB + [
+            "of the hand-written models below, the Frame header accessors and constants of Model/WsFrame.lean are in addition proved equal to the "
+            "code regenerated from the source (C07_tie_*); FrameCodec.Decode/resetDecode, the ByteBuffer methods and Mask()/Payload() are not",
             "Model/WsBuf.lean, Model/WsFrame.lean, Model/WsEncode.lean are hand-written models of byte_buffer.go (methods used by the codec), "
             "frame.go, frame_codec.go, util/bytes.go; they are tied to the source only by the correspondence check",
         ],
@@ -57,7 +65,8 @@ PROP = {
                       "leaves Reserved() > 0; a yielded frame consumes exactly its bytes; the yielded frame sequence and the final answer "
                       "depend only on the concatenation of the delivered bytes; decoding the reference encoder's output for any list of "
                       "frames (every FIN/RSV/opcode/mask/length) in any segmentation returns that list. Hypothesis: 2*max+14 <= MaxInt64 "
-                      "(shown necessary). Out-of-memory is outside the model.",
+                      "(shown necessary). Out-of-memory is outside the model."
+                      " Tie T (regenerated from the source on every run, Sonic/Gen/WsFrameBits.lean): the Frame accessors the decoder calls (ExtendedPayloadLengthBytes, PayloadLength, IsFIN/IsRSV1-3/Opcode/IsMasked, MaskBytes, maskOffset, payloadOffset) and the header constants are proved equal to the model's definitions for every slice content and length (all 2^16 header-byte combinations, every extended length, same panic on a short slice; PayloadLength exactly on slices without spare capacity and as a refinement with spare capacity), including that a 64-bit length with the top bit set becomes a negative int. Still hand-written and tied only by traces: FrameCodec.Decode itself (frame_codec.go) and the ByteBuffer methods (Model/WsBuf.lean).",
         "design_ref": "5/C07",
         "level_note": "Trusted: Lean kernel; the hand-written models of byte_buffer.go/frame.go/frame_codec.go (validated on every run by the "
                       "differential trace check against the real FrameCodec and ByteBuffer, including region lengths, capacities and the "
